@@ -41,6 +41,7 @@ RULE = ("Hypothesis-generated Angle values in (-360, 360), two clauses. Values: 
         "within 1e-3 units of the last decimal of a rounding tie, or the value is negative with a zero degree field, or within 1 arcsec (1 s) of 0 or "
         "360 (24 h), or rounds to zero; distinct = distinct (value, variant, n_dec, style).")
 ASSUMPTIONS = [
+    "the Angle is built from the generated float with a comparison tolerance (set_tolerance) taken from {default, 0, 1e-14, 1e-6, 1e-3}, also carried through the copy constructor: the tolerance is not part of the value, so decomposition and printing must not depend on it",
     "tuple pieces: degrees/hours and minutes must be integer-valued numbers, seconds a "
     "float in [0, 60), sign +1 or -1 (== comparison); recombination tolerance 1e-9 deg as "
     "stated; the recombination through the library (Angle(d, m, s, sign), Angle.dms2deg) "
@@ -129,7 +130,7 @@ def check_tuple(tup, v, unit_max, factor, what, site):
 
 def body_tuple(case):
     x = case["x"]
-    a = Angle(x)
+    a = angle_of(x)
     val = a()
     v = F(val)
     labels = []
@@ -286,9 +287,26 @@ def string_labels(v, n_dec, mag, ra, labels):
     return nt
 
 
+TOLS = [None, None, 0.0, 1e-14, 1e-6, 1e-3]
+
+
+def angle_of(x):
+    """The Angle for the float x.  The comparison tolerance of an Angle (set_tolerance) is part
+    of the object but not of its value: printing and splitting must not depend on it, so it
+    is varied deterministically with x (default for a third of the cases; also through the
+    copy constructor, which carries the tolerance over)."""
+    a = Angle(x)
+    k = int(abs(x) * 7919.0) % len(TOLS)
+    if TOLS[k] is not None:
+        a.set_tolerance(TOLS[k])
+        if k % 2:
+            a = Angle(a)
+    return a
+
+
 def body_string(case):
     x = case["x"]
-    a = Angle(x)
+    a = angle_of(x)
     val = a()
     labels = {}
     n = 0
